@@ -62,7 +62,7 @@ type TxShape struct {
 	TxPad    int          `json:"tx_pad,omitempty"`   // extra instruction data bytes
 	Meta     PayloadShape `json:"meta,omitempty"`
 	Data     PayloadShape `json:"data,omitempty"` // frame layout of the transaction bytes (default: one frame)
-	Sig      *[64]byte    `json:"sig,omitempty"` // explicit first signature (collision scenarios)
+	Sig      *[64]byte    `json:"sig,omitempty"`  // explicit first signature (collision scenarios)
 }
 
 type BlockShape struct {
@@ -77,7 +77,7 @@ type BlockShape struct {
 
 type Shape struct {
 	Epoch       uint64       `json:"epoch"`
-	RootSha512  bool         `json:"root_sha512,omitempty"` // epoch node CID uses sha2-512: longer CAR header
+	RootSha512  bool         `json:"root_sha512,omitempty"`  // epoch node CID uses sha2-512: longer CAR header
 	SubsetEvery int          `json:"subset_every,omitempty"` // blocks per subset (0 = one subset)
 	Blocks      []BlockShape `json:"blocks"`
 	Seed        uint64       `json:"seed,omitempty"`
@@ -99,8 +99,8 @@ type TxTruth struct {
 	Position  int
 	HasIndex  bool
 	TxBytes   []byte
-	MetaBytes []byte // uncompressed protobuf (nil when NoMeta)
-	MetaZstd  []byte // as stored
+	MetaBytes []byte             // uncompressed protobuf (nil when NoMeta)
+	MetaZstd  []byte             // as stored
 	Accounts  []solana.PublicKey // static keys + loaded keys
 	Static    []solana.PublicKey
 	Vote      bool
@@ -120,7 +120,7 @@ type BlockTruth struct {
 	HasHeight     bool
 	LastEntryHash []byte
 	NumEntries    int
-	Txs           []int // indices into Txs, position order
+	Txs           []int  // indices into Txs, position order
 	Rewards       []byte // as stored (zstd)
 	RewardsRaw    []byte // uncompressed protobuf
 	RewardsCid    cid.Cid
